@@ -2,59 +2,12 @@ package icmp
 
 import (
 	"net/netip"
-	"os"
 	"time"
 
 	"github.com/DataDog/datadog-traceroute/common"
-	"github.com/DataDog/datadog-traceroute/packets"
 	V "github.com/DataDog/datadog-traceroute/zzverif"
+	N "github.com/DataDog/datadog-traceroute/zzvnet"
 )
-
-// vSink records what the real SendProbe hands to the network: the ledger.
-type vSink struct {
-	pkts   [][]byte
-	dsts   []netip.AddrPort
-	closed int
-}
-
-func (s *vSink) WriteTo(b []byte, a netip.AddrPort) error {
-	s.pkts = append(s.pkts, append([]byte(nil), b...))
-	s.dsts = append(s.dsts, a)
-	return nil
-}
-func (s *vSink) Close() error { s.closed++; return nil }
-
-// vSource delivers one scripted packet per Read; nil means "no packet before the deadline".
-type vSource struct {
-	next   []byte
-	reads  int
-	closed int
-}
-
-func (s *vSource) SetReadDeadline(t time.Time) error { return nil }
-func (s *vSource) Read(buf []byte) (int, error) {
-	s.reads++
-	if s.next == nil {
-		return 0, os.ErrDeadlineExceeded
-	}
-	n := copy(buf, s.next)
-	s.next = nil
-	return n, nil
-}
-func (s *vSource) Close() error                                       { s.closed++; return nil }
-func (s *vSource) SetPacketFilter(spec packets.PacketFilterSpec) error { return nil }
-
-func vAddr4(tag string) netip.Addr {
-	b := V.Bytes(tag, 4)
-	return netip.AddrFrom4([4]byte{b[0], b[1], b[2], b[3]})
-}
-
-func vAddr6(tag string) netip.Addr {
-	b := V.Bytes(tag, 16)
-	var a [16]byte
-	copy(a[:], b)
-	return netip.AddrFrom16(a)
-}
 
 func vParams(target netip.Addr, min, max uint8) Params {
 	return Params{
@@ -68,22 +21,22 @@ func vParams(target netip.Addr, min, max uint8) Params {
 
 // vSetup4 builds a real driver with symbolic configuration and sends probes min..m through the real SendProbe.
 // window: max-min <= W-1, position unconstrained in 1..255.
-func vSetup(v6 bool) (d *icmpDriver, sink *vSink, src *vSource, local, target netip.Addr, min, m uint8) {
+func vSetup(v6 bool) (d *icmpDriver, sink *N.Sink, src *N.Source, local, target netip.Addr, min, m uint8) {
 	W := uint8(V.ParamInt("W", 2))
 	if v6 {
-		local, target = vAddr6("local"), vAddr6("target")
+		local, target = N.Addr6("local"), N.Addr6("target")
 		// an IPv4-mapped address is not a v6 endpoint; the entry point never produces one for a v6 run
 		V.Assume(!local.Is4In6())
 		V.Assume(!target.Is4In6())
 	} else {
-		local, target = vAddr4("local"), vAddr4("target")
+		local, target = N.Addr4("local"), N.Addr4("target")
 	}
 	min = V.U8("min")
 	max := V.U8("max")
 	V.Assume(min >= 1)
 	V.Assume(min <= max)
 	V.Assume(max-min <= W-1)
-	sink, src = &vSink{}, &vSource{}
+	sink, src = &N.Sink{}, &N.Source{}
 	d = newICMPDriver(vParams(target, min, max), local, sink, src)
 	d.echoID = V.U16("echoID") // arbitrary allocator state
 	m = V.U8("m")
@@ -100,7 +53,6 @@ func vSetup(v6 bool) (d *icmpDriver, sink *vSink, src *vSource, local, target ne
 	return
 }
 
-func be16(b []byte) uint16 { return uint16(b[0])<<8 | uint16(b[1]) }
 
 // ---- independent oracles, written against the ledger (bytes that really went out) ----
 
@@ -136,50 +88,4 @@ func vDestForm4(p []byte, ihl int, target netip.Addr) bool {
 	return V.All(p[9] == 1, p[o] == 0, V.BytesEq(p[12:16], t4[:]))
 }
 
-func vOuterSrc4(p []byte) netip.Addr {
-	return netip.AddrFrom4([4]byte{p[12], p[13], p[14], p[15]})
-}
 
-// vBoundArb4 states the bound on an arbitrary IPv4 packet: header-length nibbles of every IPv4 header the
-// decoders can reach (outer, IP-in-IP inner, ICMP-quoted) are <= maxIHL and TCP data-offset nibbles are <= maxDOff.
-// Values below 5 stay inside the claim (they are error paths). Without this bound gopacket's option loops
-// have one path per tiling of up to 40 option bytes.
-func vBoundArb4(P []byte, maxIHL int) {
-	L := len(P)
-	maxQIHL := V.ParamInt("maxQIHL", 5)
-	maxDOff := V.ParamInt("maxDOff", 5)
-	ipip := V.ParamInt("ipip", 0)
-	if L == 0 {
-		return
-	}
-	V.Assume(P[0]>>4 == 4)
-	V.Assume(int(P[0]&0xf) <= maxIHL)
-	if L <= 20 {
-		return
-	}
-	base := 0
-	if ipip == 1 {
-		// IP-in-IP: one level of nesting, inner header bounded the same way
-		// (gopacket decodes protocol 4 and protocol 94 as a nested IPv4 header)
-		V.Assume(V.Any(P[9] == 4, P[9] == 94))
-		V.Assume(int(P[0]&0xf) == 5)
-		V.Assume(int(P[20]&0xf) <= maxIHL)
-		if L > 29 {
-			V.Assume(P[29] != 4)
-			V.Assume(P[29] != 94)
-		}
-		base = 20
-	} else {
-		V.Assume(P[9] != 4)
-		V.Assume(P[9] != 94)
-	}
-	if maxIHL > 5 {
-		return // option-bearing outer headers: positions of inner headers vary; bounded by the job's short length instead
-	}
-	if L > base+28 {
-		V.Assume(int(P[base+28]&0xf) <= maxQIHL)
-	}
-	if L > base+32 {
-		V.Assume(int(P[base+32]>>4) <= maxDOff)
-	}
-}
